@@ -2,18 +2,22 @@
 
 use crate::engine::*;
 
+pub mod c12;
 pub mod c13;
+pub mod c20;
 
 pub type ReplayFn = fn(&mut Ctx, &str, &[u8]) -> Result<Option<String>, Fail>;
 
 pub fn registry(id: &str) -> Option<(&'static str, fn(&mut Ctx), ReplayFn)> {
     Some(match id {
+        "C12" => ("C12", c12::run, c12::replay),
         "C13" => ("C13", c13::run, c13::replay),
+        "C20" => ("C20", c20::run, c20::replay),
         _ => return None,
     })
 }
 
-pub const ALL_IDS: &[&str] = &["C13"];
+pub const ALL_IDS: &[&str] = &["C12", "C13", "C20"];
 
 /// E4: replay every committed reproduction of this property.
 /// A file that matches an *open* known finding prints its KNOWN-FINDING line;
